@@ -36,6 +36,16 @@
 //     SLOT + "_taxid" unless SLOT already ends with "taxid"; the check accepts either key.
 //   - TaxNode.LCA / IsSubCladeOf are called with nodes of the same taxonomy only.
 //   - Order of the records written by obigrep/obiannotate is not judged here (C03/C05).
+//   - A taxid declared several times in nodes.dmp: the loader adds every line with replace=true and links the
+//     parents afterwards, the last declaration is the taxon (plan_test.go).  Several "scientific name" lines for
+//     one taxid: the last one is the name; the former names are never used as query.  merged.dmp: a line may name
+//     as current id an old id declared on an EARLIER line (resolved when read); a line naming an old id declared
+//     later is dropped silently by the loader - NCBI never chains, the statement does not decide, not generated.
+//     The same old id given to two different taxa is not generated in files either.
+//   - Histories of API calls follow the protocol of the loader, repeated (hist_test.go); what is not decided
+//     (answers before ReindexParent, taxa without name, old ids declared before the re-declaration of their
+//     taxon: Taxon(old id) then still returns the former declaration) is not asked.
+//   - obifind, obiannotate lineage options, obirefidx: see find_test.go.
 package c14
 
 import (
@@ -52,13 +62,21 @@ func TestMain(m *testing.M) {
 		evid.Spec{Name: "TestPropRandomTrees", Kind: "rapid", Quick: 1600, Thorough: 24000, QuickShards: 16, ThoroughShards: 16},
 		evid.Spec{Name: "TestPropSmallTrees", Kind: "rapid", Quick: 8000, Thorough: 400000, QuickShards: 4, ThoroughShards: 16},
 		evid.Spec{Name: "TestPropCLI", Kind: "rapid", Quick: 160, Thorough: 3200, QuickShards: 8, ThoroughShards: 16, TimeoutS: 3000},
+		evid.Spec{Name: "TestExhaustiveRedeclared", Kind: "plain", QuickShards: 8, ThoroughShards: 16, TimeoutS: 3000},
+		evid.Spec{Name: "TestPropRedeclared", Kind: "rapid", Quick: 4000, Thorough: 160000, QuickShards: 8, ThoroughShards: 16, TimeoutS: 3000},
+		evid.Spec{Name: "TestPropHistory", Kind: "rapid", Quick: 4000, Thorough: 160000, QuickShards: 4, ThoroughShards: 16, TimeoutS: 3000},
+		evid.Spec{Name: "TestPropFind", Kind: "rapid", Quick: 160, Thorough: 3200, QuickShards: 8, ThoroughShards: 16, TimeoutS: 3000},
 	)
-	evid.Commands("obigrep", "obiannotate")
+	evid.Commands("obigrep", "obiannotate", "obifind", "obirefidx")
 	evid.Note("rule", "A case is a taxonomy (parent array with parent[i]<i, distinct taxids in several numbering schemes, rank labels from the NCBI ladder with 'no rank' gaps and repeated labels on a path, scientific names, merged-id aliases, ids belonging to nothing) built either through the obitax API (AddNewTaxa in a generated order, ReindexParent, AddNewName, AddNewAlias) or by writing nodes.dmp/names.dmp/merged.dmp and calling ncbitaxdump.LoadNCBITaxDump, plus queries. "+
 		"Exhaustive: every recursive tree with n<=5 (quick) / n<=7 (thorough) nodes x every triple of ids (nodes, one alias per node, unknown ids) for Taxon/Path/LCA (commutative, associative, idempotent)/IsSubCladeOf/IsBelongingSubclades and the sequence predicates and LCA of merged taxids; x every labelling of the nodes over {no rank, genus, species} (2 labels for n=7) x every node/alias x every label for TaxonAtRank/HasRankDefined/HasRequiredRank/SetTaxonAtRank. "+
 		"Random: trees of 1..3000 nodes (random, deep, chain, star, caterpillar, broom, binary) x ~200 generated queries each. CLI: obigrep -t DIR -r/-i/--require-rank and obiannotate -t DIR --with-taxon-at-rank/--add-lca-in on generated dumps and FASTA files, output parsed with the harness' own FASTA/JSON readers. "+
 		"Oracle: ref.Tree (naive walks on the parent array; LCA by depth lifting, cross-checked against the definition-level LCABrute in TestModelSelf). "+
 		"One evaluation = one query on one built taxonomy (CLI: one command run). Non-trivial query = the two taxa have unequal depths, or one is an ancestor-or-self of the other, or the root or an alias is involved (rank queries: the answer is a strict ancestor, or the rank is absent on the path although used elsewhere, or an alias is involved; CLI run: at least one record selected/annotated and one not). Distinct = hash of (check, tree, build mode, query).")
+	evid.Note("rule_redeclared", "Dump files that say things more than once (plan_test.go): a case is a tree plus a plan = superseded nodes.dmp lines (a taxid declared with another parent - any taxon, itself, a descendant, an id nothing carries - and/or another rank, one or several times, at any position before its last declaration: corrections appended to the original file, scattered, adjacent), the order of the last declarations, names.dmp in another order with scientific names given twice and names for ids nothing carries, merged.dmp with repeated lines and chains (old id -> older old id, target line first). The tree is what the files mean: the loader adds every line with replace=true and rebuilds the parent links from the ids afterwards, so the last declaration wins. Built through LoadNCBITaxDump or through the same API calls; every assertion of the rule above is made (TestPropRedeclared: random trees up to 2000 nodes, the descendants of the re-declared taxa asked first; TestExhaustiveRedeclared; TestPropCLI and TestPropFind use such dumps for one case in three). "+
+		"Stateful histories (hist_test.go, TestPropHistory): 1-4 rounds on one Taxonomy object, each = new taxa (children before parents too), re-declarations with replace=true (moved under a non-descendant / other rank / identical; superseded declarations before them; replace=false declarations that must be refused and change nothing), ReindexParent at random places (must report an error exactly when a parent id is missing) and once after the last declaration, names for the (re-)declared taxa (before or after ReindexParent), old ids (new, re-declared for re-declared taxa, chains, re-pointed, for unknown ids), then 2-10 queries against the tree of the model, the descendants of the taxa touched in the round first. Non-trivial / distinct as for the queries above.")
+	evid.Note("rule_commands", "TestPropFind: obifind -t DIR on generated dumps, 3-6 runs each: listing restricted by 0-4 -r (taxids or merged ids, 40% merged ids, the same clade twice), --rank (used / unused label), -P, name patterns (regexp or -F, with or without -a; the harness computes the same match on the scientific names), -p TAXID (path, order judged), -r with an id nothing carries (error or empty listing). Every printed line (taxid, parent taxid, rank, name or root-to-taxon path of names) is compared with the tree and the set of listed taxa with {taxon : rank matches and it is in one of the clades and its name matches}, each exactly once per pattern. Non-trivial run = some but not all taxa selected by clades+rank (path: not the root). "+
+		"TestPropCLI additionally runs obiannotate --taxonomic-path --taxonomic-rank --scientific-name (records with resolvable taxids; path string root->taxon of taxid@name@rank) and obirefidx on the records given identical nucleotides (every index must be {0: LCA of the taxa of all records with a resolvable taxid}; records with unknown taxids dropped).")
 	evid.Main(m, "C14")
 }
 
